@@ -428,6 +428,26 @@ func (h *harness) startup(fileYAML map[string]any, rawYAML string, env map[strin
 				return res
 			}
 			text = string(b)
+			if h.nfile%6 == 4 {
+				// sections the file names but leaves empty (every key of the section commented out): they provide no value,
+				// so environment and defaults decide as if the section were not there
+				seen := map[string]bool{}
+				for _, l := range h.ls {
+					i := strings.Index(l.path, ".")
+					if i < 0 {
+						continue
+					}
+					sec := l.path[:i]
+					if _, inFile := fileYAML[sec]; inFile || seen[sec] {
+						continue
+					}
+					seen[sec] = true
+					text += sec + ":\n"
+				}
+				if len(seen) > 0 {
+					h.r.Count("start_ups_with_empty_sections_in_the_file", 1)
+				}
+			}
 		}
 		res.yamlText = text
 		if err := os.WriteFile(path, []byte(text), 0o600); err != nil {
@@ -693,7 +713,7 @@ func copyDetail(d map[string]any) map[string]any {
 func body(r *ev.Run) {
 	r.Rule("precedence: every leaf key of config.AppConfig (reflection over mapstructure tags) x every subset of {env, file} providing a value of the key's type " +
 		"(values valid, different from the default and from each other; for two-valued domains (bool, db.engine, logging.format) the subset {env,file} is run in both variants env=default/file=other and env=other/file=default so that env-over-file is distinguishable); " +
-		"the subset {env,file} is run in both orders of the two values; the three spellings of the config-file option (-C f, --config_file f, --config_file=f) rotate over the cases, and every fourth file is selected through BHS_CONFIG_FILE with no option at all; plus the no-option start, an empty file, /repo/config.example.yaml, and seeded random multi-key assignments. " +
+		"the subset {env,file} is run in both orders of the two values; the three spellings of the config-file option (-C f, --config_file f, --config_file=f) rotate over the cases, and every fourth file is selected through BHS_CONFIG_FILE with no option at all; every sixth file also names the sections it gives no value for, empty (`section:`); plus the no-option start, an empty file, /repo/config.example.yaml, and seeded random multi-key assignments. " +
 		"validation: generated DbConfig sections (unsupported engines, empty SQLite path, every non-empty subset of missing required Postgres fields, prepared_db with empty path / missing file of four kinds) and their valid neighbours, each checked directly, through AppConfig.Validate and after being delivered through a YAML file and the real start-up path; plus seeded random sections against a predicate oracle. " +
 		"evaluations = start-ups / Validate calls judged; distinct = distinct (key, subset, variant), multi-key source patterns, validation classes; non-trivial = at least one source overrides a key, or a validation verdict.")
 	r.Assume("the documented defaults are those of config/defaults.go (README: 'it will use the default configuration from file defaults.go'); config.example.yaml is compared for information only",
